@@ -6,25 +6,25 @@ import plan
 V = os.path.dirname(os.path.dirname(os.path.abspath(__file__)))
 
 TECH = {
- 'C01': ('reference-model oracle over the public receiver tables on generated histories, under ASan+UBSan', '5 C01'),
- 'C02': ('independent minimax (Dijkstra-with-max) spill-level oracle, ulp-exact comparison, under ASan+UBSan', '5 C02'),
- 'C03': ('recurrence recomputed from the public tables in long double + overload differential (bit-exact), under ASan+UBSan', '5 C03'),
- 'C04': ('steepest-descent reference oracle over an independent adjacency model, under ASan+UBSan', '5 C04'),
- 'C05': ('receiver multiset + long-double proportionality oracle, under ASan+UBSan', '5 C05'),
- 'C06': ('structural invariant checker over live graph tables after every update, under ASan+UBSan', '5 C06'),
- 'C07': ('bounded exhaustive enumeration of grid configurations against a reference neighbourhood model; query-order, second-grid and second-thread histories', '5 C07'),
- 'C08': ('compiler sanitizers (ASan+UBSan, libstdc++ assertions, library asserts) over all harness workloads + table-width invariants; valgrind memcheck in the thorough tier', '5 C08'),
- 'C09': ('history differential: long-lived graph vs fresh graph, bit-exact state digest', '5 C09'),
+ 'C01': ('reference-model oracle over the public receiver tables on generated histories (incl. very large grids), under ASan+UBSan; libFuzzer campaigns in the thorough tier', '5 C01'),
+ 'C02': ('independent minimax (Dijkstra-with-max) spill-level oracle, ulp-exact comparison, under ASan+UBSan; libFuzzer campaigns in the thorough tier', '5 C02'),
+ 'C03': ('node-by-node recurrence check + long-double recomputation from the public tables + overload / source-expression differential (bit-exact), under ASan+UBSan; concurrent accumulate under ThreadSanitizer; libFuzzer campaigns in the thorough tier', '5 C03'),
+ 'C04': ('steepest-descent reference oracle over an independent adjacency model, under ASan+UBSan; ThreadSanitizer on the parallel router; libFuzzer campaigns in the thorough tier', '5 C04'),
+ 'C05': ('receiver multiset + long-double proportionality oracle, under ASan+UBSan; libFuzzer campaigns in the thorough tier', '5 C05'),
+ 'C06': ('structural invariant checker over live graph tables after every update (incl. flow paths longer than 65535 nodes), under ASan+UBSan; ThreadSanitizer on the parallel router; coverage-guided libFuzzer campaigns over the generator decisions', '5 C06'),
+ 'C07': ('bounded exhaustive enumeration of grid configurations against a reference neighbourhood model; query-order, second-grid, second-thread, copy / assignment histories; concurrent look-ups under ASan and ThreadSanitizer', '5 C07'),
+ 'C08': ('compiler sanitizers (ASan+UBSan, libstdc++ assertions, library asserts) over all harness workloads + table-width invariants; valgrind memcheck and libFuzzer campaigns in the thorough tier', '5 C08'),
+ 'C09': ('history differential: long-lived graph vs fresh graph, bit-exact state digest; independent graphs on two threads vs one after the other (ASan and ThreadSanitizer)', '5 C09'),
  'C10': ('parallel-vs-sequential differential (bit-exact) with hook-driven delay injection + ThreadSanitizer', '5 C10'),
  'C11': ('exactly-once / partition monitors on the real pool, hook-driven delay injection, lost-wake-up detector over the hook event log, watchdog, ThreadSanitizer', '5 C11'),
- 'C12': ('reference oracle on erode() output + verification hook recording limited nodes, under ASan+UBSan', '5 C12'),
- 'C13': ('long-double residual oracle of the implicit equation with sensitivity-aware tolerance, under ASan+UBSan', '5 C13'),
- 'C14': ('independent dense Gaussian-elimination solve of the two ADI half steps (long double) + metamorphic checks (linearity, status independence, scalar vs array)', '5 C14'),
- 'C15': ('independent edge-set / Kruskal oracle (weight multiset), Kruskal-vs-Boruvka differential, reused basin-graph objects', '5 C15'),
+ 'C12': ('reference oracle on erode() output + verification hook recording limited nodes, under ASan+UBSan; independent eroders on two threads (ASan and ThreadSanitizer)', '5 C12'),
+ 'C13': ('long-double residual oracle of the implicit equation with sensitivity-aware tolerance, under ASan+UBSan; independent eroders on two threads (ASan and ThreadSanitizer)', '5 C13'),
+ 'C14': ('independent dense Gaussian-elimination solve of the two ADI half steps (long double) + metamorphic checks (linearity, status independence, scalar vs array); independent eroders on two threads (ASan and ThreadSanitizer)', '5 C14'),
+ 'C15': ('independent edge-set / Kruskal oracle (weight multiset), Kruskal-vs-Boruvka differential, reused basin-graph objects; libFuzzer campaigns in the thorough tier', '5 C15'),
  'C16': ('snapshot-vs-prefix-graph differential (bit-exact digest) over update histories + refusal checks', '5 C16'),
  'C17': ('bounded exhaustive enumeration against a reference status composition; filtered iteration in both directions', '5 C17'),
  'C18': ('edge-set / cotangent-formula reference oracle in long double on generated triangulations', '5 C18'),
- 'C19': ('label-propagation oracle over receivers and dfs order, repeated calls after updates', '5 C19'),
+ 'C19': ('label-propagation oracle over receivers and dfs order, repeated calls after updates; libFuzzer campaigns in the thorough tier', '5 C19'),
  'C20': ('exhaustive enumeration of operator sequences (length <= 4) against a reference state machine, accepted sequences executed', '5 C20'),
 }
 LEVEL_TEXT = {
@@ -72,7 +72,7 @@ def main():
         },
         'engines': [
             {'name': 'vdriver', 'path': 'check', 'serves_properties': [c['property_id'] for c in checks],
-             'kind_free_text': 'python driver: rebuilds the harness binaries from /repo/include when its hash changes (ASan+UBSan, TSan, plain), '
+             'kind_free_text': 'python driver: rebuilds the harness binaries from /repo/include when its hash changes (ASan+UBSan, TSan, plain, libFuzzer), '
                                'runs up to 16 shard processes, attributes sanitizer aborts / hangs to the running case, matches violation '
                                'keys against KNOWN_FINDINGS.txt, writes evidence'},
             {'name': 'h_grid', 'path': 'harness/h_grid.cpp', 'serves_properties': ['C07', 'C17', 'C18', 'C08'], 'kind_free_text': 'grid reference-model monitors'},
